@@ -349,6 +349,29 @@ def gate(ctx, binp, drv):
     def omg(k, d):
         return tabs[k][d]
 
+    # regression corpus (corpus/C07/fft64.req): boundary requests in harness format
+    import os
+    cpath = os.path.join(os.path.dirname(os.path.dirname(os.path.abspath(__file__))), "corpus", "C07", "fft64.req")
+    if os.path.exists(cpath):
+        creq = [l.strip() for l in open(cpath) if l.strip() and not l.startswith("#")]
+        hl, dl = [], []
+        for i, l in enumerate(creq):
+            t = l.split(" ")
+            kk = next((int(x[2:]) for x in t if x.startswith("k=")), 0)
+            extra = ""
+            if t[0] in ("fft", "ifft", "pipe", "vmp") and kk in tabs:
+                extra = f" omg={omg(kk, 1 if t[0] == 'ifft' else 0)}" + (f" iomg={omg(kk, 1)}" if t[0] in ("pipe", "vmp") else "")
+            hl.append(f"{i} {l}")
+            dl.append(f"{i} fft64 {t[0]}{extra} {' '.join(t[1:])}")
+        iout, mout = both(hl, dl)
+        for i, l in enumerate(creq):
+            a, b = ans_of(iout, i), ans_of(mout, i)
+            ctx.count_case(("fft64-corpus", i), True)
+            if a != b:
+                broken.append(f"fft64 corpus line {i}")
+                disagree("fft64 (corpus): implementation and model differ", l, a, b, True)
+        ctx.cov["fft64_corpus_lines"] = len(creq)
+
     cases = []  # (harness line, driver line, meta)
     reps = 2 if quick else 3
     for k in Ks:
